@@ -497,6 +497,39 @@ def family_calls(F, fn, _depth=0):
                     yield i, cb
 
 
+def _helper_ok(name, crate_prefixes):
+    return any(name.startswith(c) for c in crate_prefixes)
+
+
+def deep_events(F, fn, kind=None, depth=2, crates=("steel::", "steel_rc::", "steel_parser::"), _seen=None):
+    """family_events of fn and of the repository's own functions it calls, transitively up to `depth` calls (for
+    'the function does X somewhere' clauses, which must survive the extraction of X into a private helper); events of a
+    helper are attributed to the block of fn that calls it"""
+    _seen = _seen if _seen is not None else {fn.name}
+    for i, e in family_events(F, fn, kind):
+        yield i, e
+    if depth <= 0:
+        return
+    for i, cb in family_calls(F, fn):
+        c = cb["callee"]
+        if c in F.fns and c not in _seen and _helper_ok(c, crates):
+            _seen.add(c)
+            for _, e in deep_events(F, F.fns[c], kind, depth - 1, crates, _seen):
+                yield i, e
+
+
+def deep_calls(F, fn, depth=2, crates=("steel::", "steel_rc::", "steel_parser::"), _seen=None):
+    """family_calls of fn and of the repository's own functions it calls, transitively up to `depth` calls"""
+    _seen = _seen if _seen is not None else {fn.name}
+    for i, cb in family_calls(F, fn):
+        yield i, cb
+        c = cb["callee"]
+        if depth > 0 and c in F.fns and c not in _seen and _helper_ok(c, crates):
+            _seen.add(c)
+            for _, cb2 in deep_calls(F, F.fns[c], depth - 1, crates, _seen):
+                yield i, cb2
+
+
 TOK = re.compile(r"_\d+(?:\.\d+)?")
 
 
